@@ -15,14 +15,17 @@ Harness-side proxies sit on public interfaces only:
     schedule, yield with/without timeout, return, raise).
 
 case = {"api": "low"|"high", "naddr": n, "early": [[a, dhex], …] (received before serve() runs),
-        "progs": {a: [[stage, …], …]} per address a list of generator programs, stage = {"s": suspensions, "do": y|yt|r|e, "t": ticks},
+        "progs": {a: [[stage, …], …]} per address a list of generator programs, stage = {"s": suspensions, "do": y|yt|r|e|c, "t": ticks}
+                 (r = return, e = raise an ordinary exception (api high: swallowed and logged by _ClientContext; api low:
+                 treated as r), c = raise CancelledError: ends only the generator's own task, the task group tolerates a
+                 cancelled child and the server goes on — the datagrams queued behind it must still be handled),
         "script": [[action, …] per loop turn], "never": [a, …] addresses whose gates are never released}
 actions: ["a", addr, dhex, susp]  datagram arrives (susp = loop turns its handler sleeps while acquiring the lock)
          ["g", addr]              release the gate the generator of addr is waiting on
          ["t", n]                 advance the virtual clock
 
 Observable lines:
-  arrive a d | h a d | hs a | hl a | rs a | cb a | wk a | y a | yt a t | req a d | bad a d | to a | end a r|e | gate a | go a
+  arrive a d | h a d | hs a | hl a | rs a | cb a | wk a | y a | yt a t | req a d | bad a d | to a | end a r|e|c | gate a | go a
   quiet | left a n | active-max a k
 """
 from __future__ import annotations
@@ -201,6 +204,9 @@ class Env:
                 if do == "e":
                     self.log(f"end {a} e")
                     raise RuntimeError("scripted request handler error")
+                if do == "c":
+                    self.log(f"end {a} c")
+                    raise asyncio.CancelledError()
                 try:
                     if do == "yt":
                         self.log_y(a, f"yt {a} {int(st['t'])}")
